@@ -580,6 +580,9 @@ func runC02R3(c *Ctx) {
 	if len(w.advances) == 0 {
 		c.bad("R3", "write of packetCount", "?", "the order counter is never advanced: every request gets the same order id")
 	}
+	for _, st := range w.copyAdvances {
+		c.bad("R3", "order counter advanced on a copy in "+fnName(st.Parent()), pos(st), "the increment is made on a by-value copy of the counter (a method with a value receiver) and is lost when the method returns: every request gets the same order id and responses leave in completion order")
+	}
 	// the order id of a request is the advanced counter itself (not a reduction of it): pairwise distinct and increasing
 	nReq := 0
 	for _, a := range p.literalsOfType("orderedRequest") {
